@@ -4,7 +4,7 @@ import z3
 
 from .base import (
     V, Unsupported, fresh, vref, vint, vbool, vstr, VNONE, NONE, TRUE, FALSE, I, B, SeqI,
-    TY, T_CORO, ISINST, clsref, strref, objref,
+    TY, T_CORO, ISINST, clsref, strref, objref, Marker,
 )
 from .symex import Raise
 from .solve import SpecFun
@@ -67,6 +67,7 @@ class Registry:
         self.elem_hints = {}
         self.assumptions = set()
         self.externals = {}
+        self.async_units = set()
 
     # ---- spec functions ------------------------------------------------------------------------------
     def specfun(self, name, sorts, defn=None):
@@ -157,7 +158,7 @@ class Registry:
         raise Unsupported("call of a local value %r (line %s)" % (fv, node.lineno))
 
     def closure_value(self, ex, st, stmt):
-        return V("static", None, ("closure", stmt))
+        return V("static", None, Marker("closure", stmt))
 
     def elem_hint(self, container):
         if container is None:
